@@ -1,5 +1,5 @@
 (* non-vacuity: concrete values meeting the hypotheses of each theorem *)
-From V Require Import Common.Base C06.TsTokens C06.SkipType C06.TypeGrammar C06.SkipProofs C06.Erase C06.Enum.
+From V Require Import Common.Base C06.TsTokens C06.SkipType C06.TypeGrammar C06.SkipProofs C06.SkipProofs6 C06.TypeArgsExpr C06.Erase C06.Enum.
 
 (* Array<Array<number>> = 1 : the ">>" token is split by the inner list *)
 Example nested_generic :
@@ -9,9 +9,9 @@ Proof. vm_compute. reflexivity. Qed.
 
 (* T extends [infer U, ...any[]] ? Array<Array<U>> | null : (keyof T)[]   followed by "=" glued to ">" is not here; "=" follows "]" *)
 Definition ex_type : ty :=
-  TCond (TRef 103 []) (TTuple [TElem false false (TInfer 104); TElem true false (TArr TPrim)])
-        (TUnion (TRef 114 [TRef 114 [TRef 104 []]]) (TLit KNull))
-        (TArr (TParen (TUnion (TLit KNull) (TKeyof false (TRef 103 []))))).
+  TCond (TRef 103 [] []) (TTuple [TElem false (-1) false false (TInfer 104); TElem true (-1) false false (TArr TPrim)])
+        (TUnion (TRef 114 [] [TRef 114 [] [TRef 104 [] []]]) (TLit KNull))
+        (TArr (TParen (TUnion (TLit KNull) (TKeyof false (TRef 103 [] []))))).
 Example ex_wf : wfb ex_type = true /\ lvl_ok ex_type LLowest = true /\ follow_ok [(KEq,false)] = true.
 Proof. vm_compute. auto. Qed.
 Example ex_tokens_glued : map fst (R true ex_type [(KEq,false)]) =
@@ -23,13 +23,13 @@ Proof. vm_compute. reflexivity. Qed.
 Example ex_skip_unglued : skip_type LLowest fl0 (R false ex_type [(KEq,false)]) = Ok [(KEq,false)].
 Proof. vm_compute. reflexivity. Qed.
 (* "let x: Array<T>= 1": the ">=" token *)
-Example ex_gteq : map fst (R true (TRef 114 [TRef 103 []]) [(KEq,false);(KNum,false)]) = [KIdent 114; KLt; KIdent 103; KGtEq; KNum].
+Example ex_gteq : map fst (R true (TRef 114 [] [TRef 103 [] []]) [(KEq,false);(KNum,false)]) = [KIdent 114; KLt; KIdent 103; KGtEq; KNum].
 Proof. vm_compute. reflexivity. Qed.
 
 (* erase/annotate: f<Array<T>>(x as T[])!   ->   f(x)  *)
 Definition ex_prog : list elem :=
-  [J (KIdent 120,false); S (SArgs [TRef 114 [TRef 103 []]]); J (KLParen,false); J (KIdent 109,false);
-   S (SAs false (TArr (TRef 103 []))); J (KRParen,false); S SBang; J (KSemi,false)].
+  [J (KIdent 120,false); S (SArgs [TRef 114 [] [TRef 103 [] []]]); J (KLParen,false); J (KIdent 109,false);
+   S (SAs false (TArr (TRef 103 [] []))); J (KRParen,false); S SBang; J (KSemi,false)].
 Example ex_prog_ok : sites_ok true ex_prog = true.
 Proof. vm_compute. reflexivity. Qed.
 Example ex_prog_erase : erase 200 (shape ex_prog) (typed true ex_prog) = Ok (untyped ex_prog)
@@ -44,3 +44,32 @@ Example ex_enum_values : enum_values ex_enum = [VNum 0; VNum 16; VNum 17; VStr [
 Proof. vm_compute. reflexivity. Qed.
 Example ex_enum_hyps : pow_ok_members st0 ex_enum = true.
 Proof. vm_compute. reflexivity. Qed.
+
+(* the widened grammar:
+   { readonly a?: A.B<T>; [k: string]: typeof x.y; m(this: T, ...r: U[]): r is V, -readonly [K in keyof T as `p${K}`]+?: T[K] }
+   | (abstract new (x?: import("m").C) => void) | [first: T, second?: U] | (T extends infer U ? U : never) *)
+Definition ex_wide : ty :=
+  TUnion (TUnion (TUnion
+    (TObj [TMProp [2; 120] true (TRef 100 [101] [TRef 103 [] []]) 0;
+           TMIndex [] 105 TPrim (TTypeof 109 [110] []) 0;
+           TMMeth [121] false [TParam false (-1) false true (TRef 103 [] []); TParam true 122 false true (TArr (TRef 104 [] []))] true
+                  (TPred 122 (TRef 106 [] [])) 1;
+           TMMapped 2 [2] 105 (TKeyof false (TRef 103 [] [])) true (TTemplate [TRef 105 [] []]) 1 true
+                    (TIdx (TRef 103 [] []) (TRef 105 [] [])) 2])
+    (TParen (TFn 2 [TParam false 109 true true (TImport false [102] [])] (TLit KVoid))))
+    (TTuple [TElem false 123 false false (TRef 103 [] []); TElem false 124 true false (TRef 104 [] [])]))
+    (TParen (TCond (TRef 103 [] []) (TInfer 104) (TRef 104 [] []) TPrim)).
+Example ex_wide_wf : wfb ex_wide = true /\ lvl_ok ex_wide LLowest = true.
+Proof. vm_compute. auto. Qed.
+Example ex_wide_skip : skip_type LLowest fl0 (R true ex_wide [(KSemi,false)]) = Ok [(KSemi,false)].
+Proof. vm_compute. reflexivity. Qed.
+Example ex_wide_len : length (R true ex_wide []) = 101%nat.
+Proof. vm_compute. reflexivity. Qed.
+(* return position: asserts this is T *)
+Example ex_ret : wf_ret_with wfb (TAsserts (-1) true (TRef 103 [] [])) = true /\
+  skip_type LLowest fl_ret (R false (TAsserts (-1) true (TRef 103 [] [])) [(KLBrace,false)]) = Ok [(KLBrace,false)].
+Proof. vm_compute. auto. Qed.
+(* f<T>(x) is a call; a < b > c and a < b > -c are comparisons *)
+Example ex_follow : spec_can_follow [(KLParen,false)] = true /\ spec_can_follow [(KIdent 102,false)] = false /\ spec_can_follow [(KMinus,false)] = false
+  /\ spec_can_follow [(KIdent 102,true)] = true /\ spec_can_follow [(KRParen,false)] = true.
+Proof. vm_compute. auto. Qed.
